@@ -350,7 +350,7 @@ func main() {
 				continue
 			}
 			c := &fctx{name: recvName(fd) + fd.Name.Name}
-			if recvName(fd) == "callContainer." && fd.Name.Name != "NewCall" {
+			if (recvName(fd) == "callContainer." && fd.Name.Name != "NewCall") || recvName(fd) == "protocolHandler." {
 				c.everyStmt = true
 			}
 			fd.Body.List = c.stmts(fd.Body.List)
